@@ -437,7 +437,7 @@ func (ep *Endpoint) performWrite(w *World, o *op, now time.Duration) {
 	}
 	w.Log.add(now, ep.Actor, "write", "ttl="+strconv.Itoa(pr.TTL()))
 	if pr.IP != nil && pr.L4 != nil && pr.IP.Proto == codec.ProtoTCP && pr.L4.Flags&codec.FlagSYN == 0 {
-		w.bindConn(ep, netip.AddrPortFrom(pr.IP.Src, pr.L4.SrcPort))
+		w.bindConn(ep, netip.AddrPortFrom(pr.IP.Src, pr.L4.SrcPort), netip.AddrPortFrom(pr.IP.Dst, pr.L4.DstPort))
 	}
 	if pr.IP != nil && pr.L4 != nil {
 		w.react(ep, pr, now)
